@@ -59,6 +59,9 @@ def _packing(ctx, lib, PK):
                 return bits.var_bits("w", 32, W)
             if t[0] == "param" and t[1] == 2:
                 return bits.var_bits(argname, argbits, W)
+            # the wrapped integer of the U24 argument read directly (`a.0`) instead of through get()
+            if t[0] == "field" and t[3] == "0" and t[1][0] == "param" and t[1][1] == 2:
+                return bits.var_bits(argname, argbits, W)
             return None
         return env
 
